@@ -79,6 +79,42 @@ def pack(m, packaging):
     return np.array(m, dtype=(int if packaging == "ndarray-int" else float))
 
 
+DIAGRAM_CONTAINERS = ["list", "tuple", "edges-as-lists", "dict-keys", "zip", "generator", "iterator", "map"]
+PAIR_ORDERS = ["index", "rev", "rot"]
+
+
+def pair_order(n, kind):
+    """the pairs of a complete diagram on n nodes, listed so that the nodes first appear in index order ("index"), in
+    reversed order ("rev": c, b, a) or rotated ("rot": b, c, .., a)"""
+    if kind == "index":
+        return [[i, j] for i in range(n) for j in range(i + 1, n)]
+    if kind == "rev":
+        return [[j, i] for i in range(n) for j in range(i + 1, n)][::-1]
+    r = list(range(1, n)) + [0]
+    return [[r[i], r[j]] for i in range(n) for j in range(i + 1, n)]
+
+
+def diagram_container(kind, diagram):
+    """the diagram ("an iterable of tuples") in one of the kinds of iterable; the last four can be walked only once"""
+    if kind == "list":
+        return list(diagram)
+    if kind == "tuple":
+        return tuple(diagram)
+    if kind == "edges-as-lists":
+        return [list(e) for e in diagram]
+    if kind == "dict-keys":
+        return dict.fromkeys(diagram).keys()
+    if kind == "zip":
+        return zip([e[0] for e in diagram], [e[1] for e in diagram], [e[2] for e in diagram])
+    if kind == "generator":
+        return (e for e in diagram)
+    if kind == "iterator":
+        return iter(diagram)
+    if kind == "map":
+        return map(tuple, [list(e) for e in diagram])
+    raise ValueError(kind)
+
+
 def build_group(case, V):
     """Fresh CoxeterGroup; returns (G, matrix written by the harness in the order of G.ordered_gens,
     names in that order, (container handed to the constructor as matrix=, its expected contents at
@@ -107,7 +143,7 @@ def build_group(case, V):
     diagram = [(names[i], names[j], m[i][j]) for (i, j) in pairs]
     box = None
     if route == "diagram":
-        G = coxeter.CoxeterGroup(diagram=diagram)
+        G = coxeter.CoxeterGroup(diagram=diagram_container(case.get("container", "list"), diagram))
     else:
         # "diagram+matrix": redundant data; documented (docstring of generator_style, text of the
         # warning "ignoring Coxeter matrix and constructing from diagram"): the diagram defines the group
@@ -184,7 +220,8 @@ def relation_checks(V, tag, R, nm, names, single, exact_order):
 
 def case_group(case):
     route = case.get("route", "matrix")
-    V = Collector("matrix %r (%s, %s)" % (case["m"], route, case.get("style", "alpha")))
+    V = Collector("matrix %r (%s, %s%s)" % (case["m"], route, case.get("style", "alpha"),
+                                           ", diagram given as %s, pairs %r" % (case["container"], case.get("pairs")) if "container" in case else ""))
     G, m, names, caller = build_group(case, V)
     if G is None:
         return {"v": V.out(), "t": 1, "o": "ctor", "nt": True}
@@ -250,6 +287,9 @@ def case_group(case):
     sg = np.array([(-1.0) ** i for i in range(n)])
     C2 = C0 * sg[:, None] * sg[None, :]                 # S C S, S = diag(+1,-1,+1,..): symmetric, same cyclic products
     other = "alphanum" if case.get("style", "alpha") == "alpha" else "alpha"
+    # renaming INTO the style the group's own names come from: generator number i of G.ordered_gens gets the i-th default
+    # name, which may be the own name of another generator (diagram listing its nodes in another order)
+    own = case.get("style", "alpha") if case.get("style", "alpha") in ("alpha", "alphanum") else "alpha"
     params, pm = {}, np.zeros((n, n))
     tvd_ok, tneg, tpos = False, 0, 0
     if has_inf:
@@ -281,6 +321,7 @@ def case_group(case):
     # Cartan / parameter arrays are the CALLER's: each kind gets one array that is handed to the library on every
     # request of that kind (first request, repeated request) and must still hold the same numbers afterwards
     mine = {"cartan": C0.copy(), "cartan-nonsymmetric": C1.copy(), "cartan-renamed": C1.copy(),
+            "cartan-renamed-own-style": C1.copy(), "cartan-renamed-own-style-diag": C2.copy(),
             "cartan-signed-diag": C2.copy(), "tits-vinberg/matrix": np.array(pm, copy=True)}
     pristine = {k: np.array(a, copy=True) for k, a in mine.items()}
 
@@ -294,6 +335,13 @@ def case_group(case):
         ("cartan-nonsymmetric", True, lambda: G.cartan_representation(mine["cartan-nonsymmetric"]), names),
         ("cartan-renamed", True, lambda: G.cartan_representation(mine["cartan-renamed"], rename_generators=True, generator_style=other),
          gen_names(n, other)),
+        ("cartan-renamed-own-style", True,
+         lambda: G.cartan_representation(mine["cartan-renamed-own-style"], rename_generators=True, generator_style=own), gen_names(n, own)),
+        ("cartan-renamed-own-style-diag", diag_ok,
+         lambda: G.cartan_representation(mine["cartan-renamed-own-style-diag"], rename_generators=True, generator_style=own, diagonalize=True),
+         gen_names(n, own)),
+        ("tits-vinberg-renamed-own-style", has_inf,
+         lambda: G.tits_vinberg_rep(dict(params), rename_generators=True, generator_style=own), gen_names(n, own)),
         ("cartan-signed-diag", diag_ok, lambda: G.cartan_representation(mine["cartan-signed-diag"], diagonalize=True), names),
         ("tits-vinberg/dict", has_inf, lambda: G.tits_vinberg_rep(dict(params)), names),
         ("tits-vinberg/matrix", has_inf, lambda: G.tits_vinberg_rep(mine["tits-vinberg/matrix"]), names),
@@ -398,7 +446,10 @@ def case_group(case):
         o_diag = "D"
 
     # ---- Cartan-matrix representations
-    for tag in ("cartan", "cartan-nonsymmetric", "cartan-renamed"):
+    for tag in ("cartan", "cartan-nonsymmetric", "cartan-renamed", "cartan-renamed-own-style", "cartan-renamed-own-style-diag",
+                "tits-vinberg-renamed-own-style"):
+        if tag not in reps:
+            continue
         nms = names_of[tag]
         _, tt = relation_checks(V, tag, reps[tag], nm, nms, all(len(x) == 1 for x in nms), False)
         t += tt
@@ -740,6 +791,10 @@ def run(ctx):
     ctx.assume("tits_vinberg_rep(parameters, diagonalize=True) is requested only when every infinite label of the matrix is written "
                "negative (cartan_matrix documents free parameters for those entries) and the harness's deformed symmetric Cartan matrix "
                "has all |eigenvalues| > 1e-3; cartan_representation(S C S, diagonalize=True) only for a non-degenerate cosine form")
+    ctx.assume("a diagram is any iterable of (generator, generator, label) triples (constructor docstring), also one that can be walked "
+               "only once; its generators are named as it names them, in the order of first appearance")
+    ctx.assume("rename_generators=True names generator number i (in the order of G.ordered_gens) by the i-th default name of "
+               "generator_style, whatever the group's own names are")
     ctx.assume("a representation is a function of the group and of the arguments of the request: requested again after any other "
                "requests to the same group object it has the same generators (1e-9 relative)")
     ctx.assume("hyperbolic_rep is requested only when the oracle's cosine form has signature (d,1), eigenvalue margin 1e-6")
@@ -777,6 +832,35 @@ def run(ctx):
       domains={"labels": labs, "ordered matrices": 13 ** 3, "infinity written as": [0, -1],
                "routes": ([r[:2] for r in ROUTES] if not q else "matrix/alpha for all; all 5 routes for labels %r" % sub)},
       chunk=16)
+    # ---- the diagram as every kind of iterable, its nodes named in both default styles and listed in other orders
+    combos = [(cn, st, po) for cn in DIAGRAM_CONTAINERS for st in ("alpha", "alphanum", "xyz") for po in PAIR_ORDERS]
+    fullm = [sym_matrix(2, [3]), sym_matrix(2, [-1]), sym_matrix(3, [3, 2, 7]), sym_matrix(3, [3, 3, 3]), sym_matrix(3, [4, -1, 3]),
+             sym_matrix(3, [-1, 0, -2]), sym_matrix(4, [3, 2, 2, 4, 2, 5]), sym_matrix(4, [3, -1, 2, 3, 2, 3])]
+    cases = []
+
+    def dcase(mm, k):
+        cn, st, po = combos[k % len(combos)]
+        return {"m": mm, "route": "diagram", "style": st, "container": cn, "pairs": pair_order(len(mm), po), "Lw": 2}
+    for mm in fullm:
+        cases.extend(dcase(mm, k) for k in range(len(combos)))
+    k = 0
+    for m in all_matrices(3, sub):
+        for mm in encodings(m):
+            cases.append(dcase(mm, 5 * k))          # 5 is coprime to 72: the combinations are cycled evenly
+            k += 1
+    for i, m in enumerate(all_matrices(4, [2, 3, 0] if q else [2, 3, 4, 0])):
+        if q and i % 3:
+            continue
+        cases.append(dcase(encodings(m)[-1], 5 * k))
+        k += 1
+    P("diagram-input-kinds", "checks.c08:case_group", cases,
+      domains={"diagram given as": DIAGRAM_CONTAINERS, "node names": ["alpha", "alphanum", "xyz"],
+               "nodes first appear in the order": {"index": "a, b, c, ..", "rev": ".., c, b, a", "rot": "b, c, .., a"},
+               "complete product (72) for the matrices": fullm,
+               "one combination each (cycled)": "every rank 3 matrix over %r with both encodings of infinity; %s rank 4 matrix over %r"
+                                                % (sub, "every third" if q else "every", [2, 3, 0] if q else [2, 3, 4, 0]),
+               "kinds": "as in the other sections, including the renamings into the group's own naming style "
+                        "(cartan_representation / tits_vinberg_rep with rename_generators=True, also diagonalised)"}, chunk=16)
     # ---- the group owns its labels (matrix route) / redundant matrix= next to diagram= (diagram wins)
     own, red = [], []
     for l in labs:
